@@ -78,7 +78,14 @@ fn list_files(root: &Path) -> BTreeMap<String, Vec<u8>> {
 }
 
 /// source file names: the default output names are derived from the stem (name without its last extension)
-const FILE_NAMES: [&str; 5] = ["prog.asm", "prog.v2.asm", "noextension", "my prog.asm", "PROG.ASM"];
+/// (in the last name \u{1} stands for the byte 0xFF: a file name that is not valid UTF-8)
+const FILE_NAMES: [&str; 6] = ["prog.asm", "prog.v2.asm", "noextension", "my prog.asm", "PROG.ASM", "pr\u{1}g.asm"];
+
+/// the text as an OS string, with the placeholder \u{1} turned into the byte 0xFF
+fn os(s: &str) -> std::ffi::OsString {
+    use std::os::unix::ffi::OsStringExt;
+    std::ffi::OsString::from_vec(s.bytes().map(|b| if b == 1 { 0xff } else { b }).collect())
+}
 
 struct Spec {
     /// index into FILE_NAMES
@@ -97,7 +104,7 @@ fn place(dir: &Path, which: &str, loc: Loc, src_dir_rel: &str, stem: &str, senti
     let default_name = if which == "code" { format!("{}.hex", stem) } else { format!("{}.eep.hex", stem) };
     match loc {
         Loc::Default | Loc::DefaultIsDir => {
-            let p = dir.join(src_dir_rel).join(&default_name);
+            let p = dir.join(src_dir_rel).join(os(&default_name));
             if loc == Loc::DefaultIsDir {
                 let _ = std::fs::create_dir_all(&p);
             } else if sentinels {
@@ -148,7 +155,7 @@ fn exec_spec(scratch_root: &Path, bin: &Path, id: usize, sp: &Spec) -> (bool, Ve
             _ => fname,
         };
         let src_rel = if sp.path_kind == 2 { format!("nested/deeper/{}", fname) } else { fname.to_string() };
-        let src_abs = dir.join(&src_rel);
+        let src_abs = dir.join(os(&src_rel));
         if sname != "nonexistent-source" {
             std::fs::write(&src_abs, stext).unwrap_or_else(|e| machinery_fail(&format!("cannot write {:?}: {}", src_abs, e)));
         }
@@ -157,7 +164,7 @@ fn exec_spec(scratch_root: &Path, bin: &Path, id: usize, sp: &Spec) -> (bool, Ve
         let before = list_files(&dir);
         let mut cmd = Command::new(&bin);
         cmd.current_dir(&dir).env("RUST_BACKTRACE", "0");
-        cmd.arg("-s").arg(if sp.path_kind == 1 { src_abs.display().to_string() } else { src_rel.clone() });
+        cmd.arg("-s").arg(if sp.path_kind == 1 { src_abs.clone().into_os_string() } else { os(&src_rel) });
         if let Some(a) = &code_arg {
             cmd.arg("-o").arg(a);
         }
